@@ -4,8 +4,10 @@ package interp
 
 import (
 	"fmt"
-	"math"
+	"go/token"
 	"go/types"
+	"math"
+	"strings"
 )
 
 var intrinsics = map[string]externalFn{}
@@ -414,6 +416,14 @@ func init() {
 			return math.Copysign(a, b)
 		}
 		return ufApply("UF_Copysign", args)
+	}
+	// the assembly kernels behind math.Max/Min: their pure-Go twins (math.max/min) are interpreted instead
+	for _, n := range []string{"Max", "Min"} {
+		n := n
+		externals["math.arch"+n] = func(fr *frame, args []value) value {
+			pure := fr.i.prog.ImportedPackage("math").Func(strings.ToLower(n))
+			return call(fr.i, fr, token.NoPos, pure, args)
+		}
 	}
 	externals["math.Max"] = nil
 	externals["math.Min"] = nil
